@@ -29,9 +29,9 @@ RESET_TO_MODE = {"numbers": "numbers", "tok": "tok", "nested": "nested", "keyval
 def _args(tier):
     q = tier == "quick"
     return {
-        "numbers": ["--len", 5 if q else 6, "--rand", 400 if q else 20000, "--alt", 1],
-        "tok": ["--len3", 5 if q else 8, "--len8", 3 if q else 4, "--rand", 300 if q else 8000],
-        "nested": ["--len", 5 if q else 7, "--rand", 400 if q else 10000],
+        "numbers": ["--len", 5 if q else 6, "--rand", 400 if q else 5000, "--alt", 1],
+        "tok": ["--len3", 5 if q else 7, "--len8", 3 if q else 4, "--rand", 300 if q else 4000],
+        "nested": ["--len", 5 if q else 6, "--rand", 400 if q else 6000],
         "keyval": ["--len", 4 if q else 6, "--rand", 150 if q else 4000],
         "glob": ["--plen", 6 if q else 8, "--nlen", 6 if q else 8],
         "vars": ["--items", 2, "--nvars", 2 if q else 3, "--rand", 600 if q else 10000],
@@ -54,14 +54,14 @@ def _models(tier, wd):
               "SPECIFICATION Spec\nCONSTANTS\n  N = %d\n  R = %d\n" % (5 if q else 6, 3000 if q else 100000)),
               "N=%d (all strings over {0,1,-,+,dec,sci,other}), R=%d" % (5 if q else 6, 3000 if q else 100000)))
     m.append(("TokenizerLemmas", "TokenizerLemmas", _write(os.path.join(wd, "tokl.cfg"),
-              "SPECIFICATION LSpec\nCONSTANTS\n  N = %d\n" % (6 if q else 8)), "N=%d" % (6 if q else 8)))
+              "SPECIFICATION LSpec\nCONSTANTS\n  N = %d\n" % (6 if q else 7)), "N=%d" % (6 if q else 7)))
     m.append(("Tokenizer", "TokenizerMC", _write(os.path.join(wd, "tokm.cfg"),
               "SPECIFICATION Spec\nCONSTANTS\n  Alpha = {97, 44, 59}\n  MaxLen = %d\n  Delims <- McDelims\n"
               "INVARIANTS Rejoin RestIsTail CursorOK TokensClean NoEmptyUnlessAllowed\nPROPERTY ConsumeStep\nCHECK_DEADLOCK FALSE\n"
-              % (4 if q else 6)), "Alpha={a , ;} MaxLen=%d Delims={',', ',;', ''} x solid x allowEmpty" % (4 if q else 6)))
+              % (4 if q else 5)), "Alpha={a , ;} MaxLen=%d Delims={',', ',;', ''} x solid x allowEmpty" % (4 if q else 5)))
     m.append(("GlobLemmas", "GlobLemmas", _write(os.path.join(wd, "globl.cfg"),
-              "SPECIFICATION Spec\nCONSTANTS\n  NP = %d\n  NN = %d\n" % (5 if q else 7, 5 if q else 7)),
-              "patterns over {a,b,*} <= %d, names over {a,b} <= %d" % (5 if q else 7, 5 if q else 7)))
+              "SPECIFICATION Spec\nCONSTANTS\n  NP = %d\n  NN = %d\n" % (5 if q else 6, 5 if q else 6)),
+              "patterns over {a,b,*} <= %d, names over {a,b} <= %d" % (5 if q else 6, 5 if q else 6)))
     m.append(("Keyval", "KeyvalMC", _write(os.path.join(wd, "kvm.cfg"),
               "SPECIFICATION Spec\nCONSTANTS\n  Big = %s\n  Names <- McNames\n  ArgLists <- McArgLists\n  NewLists <- McNewLists\n"
               "INVARIANTS RoundTrip ParseResult InDomain\nPROPERTY SubstExact\nCHECK_DEADLOCK FALSE\n" % ("FALSE" if q else "TRUE")),
